@@ -20,6 +20,14 @@ def run_shard(spec):
 
 def judge_record(rec, rep):
     f = rec["final"]
+    if "summary_error" in rec:
+        se = rec["summary_error"]
+        nm = rec["cfg"]["simulation"]["num_months"]
+        mech = f"summary-construction-raised:{se['type']}"
+        if se["type"] == "IndexError" and nm % 12 != 0 and nm > 12 and any("get_summary" in w for w in se["where"]):
+            mech = "summary-crashes-when-horizon-is-not-a-multiple-of-12-months"
+        rep.violate(mech, f"{PC.method_of(rec)} {nm} months: prepare_results raised {se['type']}: {se['msg']} at {se['where']}", {"scenario": rec["cfg"], "error": se})
+        return PC.outcome_class(rec)
     s = rec["summary"]
     rs = rec["resim"]
     oc = PC.outcome_class(rec)
